@@ -1026,32 +1026,192 @@ def r4(ctx: RuleCtx) -> None:
     for f, cnt in ys.items():
         ctx.require(cnt > 0, f'get_testlike_targets yields targets taken from {tvn}.{f}', bk, 'Backend.get_testlike_targets', f'{tvn}.{f}',
                     f'no yielded value of get_testlike_targets flows from `{tvn}.{f}`: targets a test {"runs" if f == "exe" else "uses as " + f} are not prerequisites of `test`', t)
-    # a CustomTargetIndex is replaced by its target, BuildTarget/CustomTarget are yielded themselves, nothing else filtered
-    tab = tables.extract(t, body=ln.ast.body, effects=lambda st: ('yield ' + norm(st.value.value)) if isinstance(st, ast.Expr) and isinstance(st.value, ast.Yield) else None,  # type: ignore[union-attr]
-                         unroll=1, name='get_testlike_targets:loop')
-    bad_rows = []
-    nrows = 0
-    for r in tab.rows:
-        for a, v in r.conds.items():
-            if a.kind == 'isinstance' and v:
-                subj = a.args[0]
-                is_idx = a.args[1] == ('build.CustomTargetIndex',)
-                want_y = f'yield {subj}.target' if is_idx else f'yield {subj}'
-                if any('CustomTargetIndex' in x for x in a.args[1]) and not is_idx:
-                    continue
-                # another isinstance on the same subject true as well (Index inside the tuple) -> skip
-                if any(a2.kind == 'isinstance' and a2.args[0] == subj and v2 and a2 is not a and a2.args[1] == ('build.CustomTargetIndex',) for a2, v2 in r.conds.items()):
-                    if not is_idx:
+    _testlike_exhaustive(ctx, bk, t, ti, ln, tvn)
+
+
+def _expand_ann(repo: T.Any, mod: Module, e: T.Optional[ast.AST], out: T.List[T.Tuple[Module, ast.ClassDef]], depth: int = 0) -> None:
+    """Leaf classes of a type annotation: unions, containers (element type), quoted names and TypeAlias assignments are expanded."""
+    if e is None:
+        return
+    if depth > 10:
+        raise Undecided(f'{mod.rel}: type alias chain too deep at `{short(e, 50)}`')
+    if isinstance(e, ast.Constant):
+        if isinstance(e.value, str):
+            _expand_ann(repo, mod, ast.parse(e.value, mode='eval').body, out, depth + 1)
+        return
+    if isinstance(e, ast.Subscript):
+        sl = e.slice
+        for x in (sl.elts if isinstance(sl, ast.Tuple) else [sl]):
+            _expand_ann(repo, mod, x, out, depth + 1)
+        return
+    if isinstance(e, ast.BinOp) and isinstance(e.op, ast.BitOr):
+        _expand_ann(repo, mod, e.left, out, depth + 1)
+        _expand_ann(repo, mod, e.right, out, depth + 1)
+        return
+    c = attr_chain(e)
+    if c is None:
+        return
+    r = repo.resolve_class(mod, c)
+    if r is not None:
+        if not any(r[1] is x[1] for x in out):
+            out.append(r)
+        return
+    # a type alias: NAME (: TypeAlias) = <annotation>, in this module or in the module the name is imported from
+    imps = mod.imports()
+    head, _, tail = c.partition('.')
+    cands: T.List[T.Tuple[Module, str]] = []
+    if not tail:
+        cands.append((mod, c))
+        if c in imps and '.' in imps[c]:
+            m2 = repo.module_by_dotted(imps[c].rsplit('.', 1)[0])
+            if m2 is not None:
+                cands.append((m2, imps[c].rsplit('.', 1)[1]))
+    elif head in imps:
+        m2 = repo.module_by_dotted(imps[head])
+        if m2 is not None and '.' not in tail:
+            cands.append((m2, tail))
+    for m2, name in cands:
+        if m2.has_assign(name):
+            _expand_ann(repo, m2, m2.assign_value(name), out, depth + 1)
+            return
+    # builtins (str, int), typing names: not repository classes
+
+
+def _field_annotation(mod: Module, cls: ast.ClassDef, field: str) -> T.Optional[ast.AST]:
+    """Annotation of `self.<field>` of a class: class-level / `self.f: ann` annotation, or that of the __init__ parameter stored in it."""
+    for st in cls.body:
+        if isinstance(st, ast.AnnAssign) and isinstance(st.target, ast.Name) and st.target.id == field:
+            return st.annotation
+    init = next((f for f in cls.body if isinstance(f, ast.FunctionDef) and f.name == '__init__'), None)
+    if init is None:
+        return None
+    params = {a.arg: a.annotation for a in init.args.posonlyargs + init.args.args + init.args.kwonlyargs}
+    for st in ast.walk(init):
+        if isinstance(st, ast.AnnAssign) and attr_chain(st.target) == f'self.{field}':
+            return st.annotation
+    for st in ast.walk(init):
+        if isinstance(st, ast.Assign) and any(attr_chain(x) == f'self.{field}' for x in st.targets) and isinstance(st.value, ast.Name) and st.value.id in params:
+            return params[st.value.id]
+    return None
+
+
+def _defines_attr(repo: T.Any, mod: Module, cls: ast.ClassDef, name: str) -> bool:
+    for m, c in repo.mro(mod, cls):
+        for st in c.body:
+            if isinstance(st, ast.AnnAssign) and isinstance(st.target, ast.Name) and st.target.id == name:
+                return True
+            if isinstance(st, ast.Assign) and any(isinstance(x, ast.Name) and x.id == name for x in st.targets):
+                return True
+            if isinstance(st, (ast.FunctionDef, ast.AsyncFunctionDef)):
+                if st.name == name:
+                    return True
+                for x in ast.walk(st):
+                    if isinstance(x, ast.Attribute) and x.attr == name and isinstance(x.ctx, ast.Store) and isinstance(x.value, ast.Name) and x.value.id == 'self':
+                        return True
+    return False
+
+
+def _testlike_exhaustive(ctx: RuleCtx, bk: Module, t: ast.AST, ti: L.FnInfo, ln: Node, tvn: str) -> None:
+    """For each source of a test (exe, cmd_args element, depends element) every class the annotations of Test admit there and that is (or wraps)
+    something get_testlike_targets may yield has a row of the decision table that yields the target."""
+    repo = ctx.repo
+    qn = 'Backend.get_testlike_targets'
+    # what the function may yield: the classes of its return annotation
+    ylds: T.List[T.Tuple[Module, ast.ClassDef]] = []
+    _expand_ann(repo, bk, t.returns, ylds)  # type: ignore[attr-defined]
+    if not ylds:
+        raise Undecided('get_testlike_targets: return annotation names no repository class')
+
+    def below(k: T.Tuple[Module, ast.ClassDef], tops: T.List[T.Tuple[Module, ast.ClassDef]]) -> bool:
+        return any(c is y[1] for _, c in repo.mro(k[0], k[1]) for y in tops)
+
+    # the element class of build.tests: resolve through the annotation of Build.get_tests
+    bm = repo.module('mesonbuild/build.py')
+    tests: T.List[T.Tuple[Module, ast.ClassDef]] = []
+    _expand_ann(repo, bm, bm.func('Build.get_tests').returns, tests)
+    if len(tests) != 1:
+        raise Undecided(f'Build.get_tests: element class of the returned list not resolved ({[c.name for _, c in tests]})')
+    tm, tc = tests[0]
+    eff = lambda st: ('yield ' + norm(st.value.value)) if isinstance(st, ast.Expr) and isinstance(st.value, ast.Yield) else None  # noqa: E731
+    trc = L.Tracer(ti)
+    nob = 0
+    for field in ('exe', 'cmd_args', 'depends'):
+        ann = _field_annotation(tm, tc, field)
+        if ann is None:
+            raise Undecided(f'{tc.name}.{field}: no annotation found')
+        admitted: T.List[T.Tuple[Module, ast.ClassDef]] = []
+        _expand_ann(repo, tm, ann, admitted)
+        kinds: T.List[T.Tuple[T.Tuple[Module, ast.ClassDef], str]] = []
+        for k in admitted:
+            if below(k, ylds):
+                kinds.append((k, 'direct'))
+                continue
+            fa = next((st.annotation for st in k[1].body if isinstance(st, ast.AnnAssign) and isinstance(st.target, ast.Name) and st.target.id == 'target'), None)
+            if fa is not None:
+                inner: T.List[T.Tuple[Module, ast.ClassDef]] = []
+                _expand_ann(repo, k[0], fa, inner)
+                if inner and all(below(x, ylds) for x in inner):
+                    kinds.append((k, 'index'))
+        if not kinds:
+            raise Undecided(f'{tc.name}.{field}: annotation `{short(ann, 60)}` admits no buildable class')
+        # the part of the loop body that handles this source, and the subject expression
+        if field == 'exe':
+            body = [s for s in ln.ast.body if not isinstance(s, (ast.For, ast.AsyncFor))]  # type: ignore[union-attr]
+            subject = f'{tvn}.exe'
+        else:
+            loops = [s for s in ast.walk(ln.ast) if isinstance(s, ast.For) and s is not ln.ast and ti.nodes_of(s.iter) and  # type: ignore[arg-type]
+                     f'attr:{tvn}.{field}' in trc.origins(s.iter, ti.nodes_of(s.iter)[0])]
+            if len(loops) != 1 or not isinstance(loops[0].target, ast.Name):
+                raise Undecided(f'get_testlike_targets: {len(loops)} loops over {tvn}.{field}')
+            body = loops[0].body
+            subject = loops[0].target.id
+        tab = tables.extract(t, body=body, effects=eff, name=f'get_testlike_targets:{field}')  # type: ignore[arg-type]
+        free = []
+        for a in tab.atoms():
+            if a.kind == 'isinstance' and a.args[0] == subject:
+                continue
+            free.append(a)
+        if len(free) > 6:
+            raise Undecided(f'get_testlike_targets:{field}: {len(free)} atoms besides the isinstance tests on {subject}')
+        import itertools
+        for k, how in kinds:
+            world0: T.Dict[tables.Atom, bool] = {}
+            for a in tab.atoms():
+                if a.kind == 'isinstance' and a.args[0] == subject:
+                    tops = []
+                    for cn in a.args[1]:
+                        rc = repo.resolve_class(bk, cn)
+                        if rc is None:
+                            raise Undecided(f'get_testlike_targets: class `{cn}` of an isinstance test is not a repository class')
+                        tops.append(rc)
+                    world0[a] = below(k, tops)
+            accept = {f'yield {subject}.target'} if how == 'index' else {f'yield {subject}'}
+            ga = f"yield getattr({subject}, 'target', {subject})"
+            if how == 'index' or not _defines_attr(repo, k[0], k[1], 'target'):
+                accept.add(ga)
+            bad: T.Any = None
+            fired_any = False
+            for combo in itertools.product([True, False], repeat=len(free)):
+                w = dict(world0)
+                w.update(dict(zip(free, combo)))
+                rows = tab.fire(w)
+                if not rows:
+                    continue     # inconsistent assignment of the free atoms
+                fired_any = True
+                for r in rows:
+                    if r.outcome[0] == 'raise':
                         continue
-                nrows += 1
-                if want_y not in r.effects:
-                    bad_rows.append((r, want_y))
-    ctx.floor('isinstance rows of get_testlike_targets checked', nrows, 3)
-    if bad_rows:
-        r, want_y = bad_rows[0]
-        ctx.violation(bk, 'Backend.get_testlike_targets', repr(r)[:200], f'a path on which the test uses a build target does not `{want_y}`', t)
-    else:
-        ctx.ok(f'get_testlike_targets: {nrows} isinstance rows yield the target (index -> .target)')
+                    if not (accept & set(r.effects)):
+                        bad = r
+            nob += 1
+            if not fired_any:
+                bad = '<no path of the code accepts this class>'
+            ctx.require(bad is None, f'get_testlike_targets: a {k[1].name} in {tvn}.{field} yields {"its parent target" if how == "index" else "the target"}', bk, qn,
+                        f'{tc.name}.{field}: {k[1].name}',
+                        f'{tc.name}.{field} admits a {k[1].name} (annotation `{short(ann, 60)}`), but for such a value the code takes the row `{bad}` which does not '
+                        f'{sorted(accept)[0]}: {"the custom target behind an indexed output" if how == "index" else "that target"} used by a test is not reachable from '
+                        'meson-test-prereq', t)
+    ctx.floor('(source, admitted buildable class) pairs of get_testlike_targets', nob, 10)
 
 
 # ----------------------------------------------------------------------------
